@@ -1326,3 +1326,133 @@ def views_after_mutation(obj_factory: Callable[[], Any], views: Iterable, mutate
     """read all views, mutate, read all again, compare with the views of a fresh object; error string or None
     (see read_mutate_read, which also hands back the object and what it showed)"""
     return read_mutate_read(obj_factory, views, mutate, fresh_factory, what, first, after)
+# probes for factories that hand out a shared mutable object (a cached `empty()` / `default()` /
+# `success_params()`, a module-level singleton behind a helper function)
+# --------------------------------------------------------------------------------------------
+def state_snapshot(obj: Any, depth: int = 6) -> Callable[[], None]:
+    """CLEAN-UP ONLY (never used for a verdict): remembers the attribute bindings of `obj` and of every instance / list /
+    bytearray reachable from it, and returns a function that puts them back IN PLACE. A probe that modifies an object a
+    factory handed out calls it when it is done, so that an implementation which does share that object between calls
+    fails on the line that modified it and not on unrelated later lines of the same process (the lines stay
+    self-contained, and a minimiser works on clean state). Reaches into `__dict__`, which the ops themselves never do."""
+    import enum
+    import types
+    seen: Dict[int, Any] = {}
+    saved: List[Any] = []
+
+    def walk(x: Any, d: int):
+        if d < 0 or id(x) in seen:
+            return
+        if x is None or isinstance(x, (int, float, str, bytes, bool, enum.Enum, type, types.ModuleType, types.FunctionType,
+                                       types.MethodType, types.BuiltinFunctionType)):
+            return
+        if isinstance(x, bytearray):
+            seen[id(x)] = x
+            saved.append((x, bytes(x)))
+        elif isinstance(x, list):
+            seen[id(x)] = x
+            saved.append((x, list(x)))
+            for e in x:
+                walk(e, d - 1)
+        elif isinstance(x, (tuple, set, frozenset)):
+            seen[id(x)] = x
+            for e in x:
+                walk(e, d - 1)
+        elif isinstance(x, dict):
+            seen[id(x)] = x
+            saved.append((x, dict(x)))
+            for e in x.values():
+                walk(e, d - 1)
+        elif isinstance(getattr(x, "__dict__", None), dict):
+            seen[id(x)] = x
+            saved.append((x, dict(x.__dict__)))
+            for e in list(x.__dict__.values()):
+                walk(e, d - 1)
+
+    walk(obj, depth)
+
+    def restore():
+        for x, was in saved:
+            try:
+                if isinstance(x, bytearray):
+                    x[:] = was
+                elif isinstance(x, list):
+                    x[:] = was
+                elif isinstance(x, dict):
+                    x.clear()
+                    x.update(was)
+                else:
+                    x.__dict__.clear()
+                    x.__dict__.update(was)
+            except Exception:  # noqa
+                pass
+    return restore
+
+
+def factory_independent(make: Callable[[], Any], view: Callable[[Any], Any], mutate: Callable[[Any], Any], what: str,
+                        documented: Any = None, fresh_ok: Optional[Callable[[Any, Any], bool]] = None) -> Optional[str]:
+    """Every call of a factory (classmethod / staticmethod / module-level helper that builds an object of a mutable class
+    without being handed all of its state) yields an object of its own with the documented values - whatever the
+    application has done in the meantime to objects the same factory returned earlier. Self-contained sequence on the
+    real code:
+      first = make(); a = make(); last = make()          (an earlier and a later result next to the one that is modified)
+      mutate(a)  - through the documented setters / public attributes / list methods only; a refused step is ignored;
+      then  view(first) and view(last) are what they were (objects from separate calls share nothing mutable),
+            view(make()) - a call AFTER the modification - is what the factory returned the first time.
+    `view` must return plain values (ints, strings, hex, lists, dicts) that describe everything observable and must not
+    depend on object identity. `documented`: the view the factory is documented to produce (compared with the first
+    result when given). `fresh_ok(view_of_new, view_of_first)`: replaces equality for factories whose result depends on
+    the clock (the independence part is checked all the same).
+    Returns None, or one sentence that starts with `what` (the name of the factory) and says what changed.
+    Exceptions of make() propagate unchanged (the caller decides whether a refusal is a finding). The modification of `a`
+    is taken back at the end (state_snapshot) so that a sharing implementation fails on this sequence only."""
+    first = make()
+    a = make()
+    last = make()
+    try:
+        v_first, v_a, v_last = view(first), view(a), view(last)
+    except (SelfCheckFailure, InfraError) as e:
+        return f"{what}: the object it returns is not consistent in itself right after the call: {e}"
+    same = fresh_ok if fresh_ok is not None else (lambda new, old: new == old)
+    if documented is not None and v_first != documented:
+        return f"{what}: returns {_short(v_first)}, documented is {_short(documented)}"
+    if not same(v_a, v_first) or not same(v_last, v_first):
+        return f"{what}: three calls in a row return different values: {_short(v_first)} / {_short(v_a)} / {_short(v_last)}"
+    restore = state_snapshot(a)        # clean-up only, see there
+    try:
+        return _factory_independent_tail(make, view, mutate, what, same, first, a, last, v_first, v_last)
+    finally:
+        restore()
+
+
+def _factory_independent_tail(make, view, mutate, what, same, first, a, last, v_first, v_last) -> Optional[str]:
+    try:
+        mutate(a)
+    except (SelfCheckFailure, InfraError):
+        raise
+    except Exception:  # noqa   a setter that refuses makes the probe weaker, never an alarm
+        pass
+    for label, obj, was in (("EARLIER", first, v_first), ("LATER", last, v_last)):
+        try:
+            now = view(obj)
+        except InfraError:
+            raise
+        except SelfCheckFailure as e:
+            return (f"{what}: the object returned by an {label} call is no longer consistent in itself after the object returned by "
+                    f"ANOTHER call was modified through its public setters / attributes: {e}")
+        except Exception as e:  # noqa
+            return (f"{what}: the object returned by an {label} call can no longer be inspected after the object returned by ANOTHER "
+                    f"call was modified through its public setters / attributes ({type(e).__name__}: {e})")
+        if now != was:
+            return (f"{what}: the object returned by an {label} call changed when the object returned by ANOTHER call was modified "
+                    f"through its public setters / attributes (the calls share a mutable object): {_short(was)} became {_short(now)}")
+    try:
+        v_new = view(make())
+    except InfraError:
+        raise
+    except SelfCheckFailure as e:
+        return f"{what}: a call made AFTER an earlier result was modified returns an object that is not consistent in itself: {e}"
+    if not same(v_new, v_first):
+        return (f"{what}: a call made AFTER an earlier result was modified through its public setters / attributes no longer returns "
+                f"the documented value: {_short(v_first)} before, {_short(v_new)} now")
+    return None
